@@ -507,11 +507,53 @@ func ruleC06R2(r *Run) {
 		n += nAlt - 1 // every alternative value of the written rune is one write
 		r.Check("kindaSafeFilename#write-rune", cs.Instr.Pos(), okAll, "the rune is written only if it is a letter, a digit, '-' or '_'", "kindaSafeFilename writes a rune that is not known to be a letter, digit, '-' or '_': glob metacharacters, path separators or dots can reach file names and patterns")
 	}
+	// alternative form: strings.Map(mapper, f) with a mapper that returns only safe runes
+	mapped := map[string]bool{}
+	for _, cs := range p.callsTo(fn, "strings.Map") {
+		mf, _ := p.resolve(cs.Arg(0)).(*ssa.Function)
+		if mf == nil || !p.inRapid(mf) || len(mf.Params) != 1 || p.expr(cs.Arg(1)) != "$f" {
+			r.Fail("kindaSafeFilename#mapper", cs.Instr.Pos(), "strings.Map is not applied to the name with a mapping function of the package: "+p.expr(cs.Arg(0)))
+			continue
+		}
+		mapped[p.expr(cs.Value())] = true
+		par := "$" + p.paramName(mf.Params[0])
+		for _, ret := range returnsOf(mf) {
+			for _, a := range p.alternatives(p.res(ret, 0), 0) {
+				n++
+				av := p.resolve(a.Val)
+				if c, ok := av.(*ssa.Const); ok {
+					v, okv := constInt(c)
+					r.Check("kindaSafeFilename#write-const", ret.Pos(), okv && safeAlphabetRune(rune(v)), fmt.Sprintf("maps to the constant %q", rune(v)), "the mapping function returns a constant outside the safe alphabet: "+p.expr(c))
+					continue
+				}
+				var lits []string
+				for _, f := range a.Facts {
+					lits = append(lits, f.String())
+				}
+				sets := p.pathConds(mf, ret.Block(), nil)
+				if len(sets) == 0 {
+					sets = [][]string{{}}
+				}
+				okAll := p.expr(av) == par
+				for _, set := range sets {
+					if !p.safeRuneLits(append(append([]string{}, lits...), set...), par, 0) {
+						okAll = false
+					}
+				}
+				r.Check("kindaSafeFilename#write-rune", ret.Pos(), okAll, "a rune is kept only if it is a letter, a digit, '-' or '_'", "the mapping function of kindaSafeFilename keeps a rune that is not known to be a letter, digit, '-' or '_': glob metacharacters, path separators or dots can reach file names and patterns")
+			}
+		}
+	}
 	r.Floor("writes in kindaSafeFilename", n, 2)
 	// result: the builder's string, possibly + "_"
 	for _, ret := range returnsOf(fn) {
 		ex := p.expr(p.res(ret, 0))
 		ok := false
+		for m := range mapped {
+			if ex == m || ex == "("+m+" + \"_\")" {
+				ok = len(mapped) == 1 && len(builders) == 0
+			}
+		}
 		for b := range builders {
 			if ex == "(*strings.Builder).String("+b+")" || ex == "((*strings.Builder).String("+b+") + \"_\")" {
 				ok = len(builders) == 1
@@ -621,7 +663,7 @@ func ruleC06R3(r *Run) {
 		joinSep, _ = constString(p.resolve(cs.Arg(1)))
 	}
 	okHdr := false
-	for _, cs := range p.callsTo(load, "strings.Split") {
+	for _, cs := range p.callsTo(load, "strings.Split", "strings.SplitN", "strings.Cut") {
 		sep, _ := constString(p.resolve(cs.Arg(1)))
 		if sep == hdrSep && sep != "" {
 			okHdr = true
@@ -633,7 +675,7 @@ func ruleC06R3(r *Run) {
 		base, _ := constInt(p.resolve(cs.Arg(1)))
 		bits, _ := constInt(p.resolve(cs.Arg(2)))
 		src := p.expr(cs.Arg(0))
-		if strings.Contains(src, "strings.Split(") {
+		if strings.Contains(src, "strings.Split(") || strings.Contains(src, "strings.SplitN(") || strings.Contains(src, "strings.Cut(") {
 			ok := bits == 64 && ((seedBase == 10 && (base == 10 || base == 0)) || (seedBase == 16 && base == 16))
 			r.Check("format#seed-base", cs.Instr.Pos(), ok, fmt.Sprintf("seed written in base %d and parsed with base %d", seedBase, base), fmt.Sprintf("seed is written in base %d but parsed with base %d / %d bits", seedBase, base, bits))
 		} else {
@@ -652,7 +694,7 @@ func ruleC06R3(r *Run) {
 		if !isNilConst(p.resolve(p.res(ret, 3))) {
 			continue
 		}
-		r.Check("loadFailFile#result", ret.Pos(), strings.HasSuffix(p.expr(p.res(ret, 0)), "[0]") && strings.Contains(p.expr(p.res(ret, 1)), "strconv.ParseUint(") && isAppendPhi(p, p.res(ret, 2), "strconv.ParseUint("),
+		r.Check("loadFailFile#result", ret.Pos(), (strings.HasSuffix(p.expr(p.res(ret, 0)), "[0]") || (strings.HasPrefix(p.expr(p.res(ret, 0)), "strings.Cut(") && strings.HasSuffix(p.expr(p.res(ret, 0)), "#0"))) && strings.Contains(p.expr(p.res(ret, 1)), "strconv.ParseUint(") && isAppendPhi(p, p.res(ret, 2), "strconv.ParseUint("),
 			"returns (split[0], parsed seed, words)", "loadFailFile's success return is ("+p.expr(p.res(ret, 0))+", "+p.expr(p.res(ret, 1))+", "+p.expr(p.res(ret, 2))+")")
 	}
 }
@@ -752,7 +794,15 @@ func ruleC06R5(r *Run) {
 					}
 				}
 				if len(vs) == 1 && vs[0] != nil && p.resolve(vs[0]) == ssa.Value(paramNamed(dc, "failfile")) {
-					okOrder = true
+					// … and exactly when one was given
+					facts := append(append([]rel{}, a.Facts...), p.facts(ap.Instr)...)
+					if x, ok := p.resolve(a.Val).(ssa.Instruction); ok {
+						facts = append(facts, p.facts(x)...)
+					}
+					okOrder = holds(facts, "$failfile", "!=", `""`)
+					if !okOrder {
+						listDesc += " (not under failfile != \"\")"
+					}
 				}
 			}
 		}
@@ -773,6 +823,48 @@ func ruleC06R5(r *Run) {
 		name := p.resolve(p.res(ret, 4))
 		okName := p.same(name, cf.Arg(1))
 		r.Check("doCheck#failfile-return", ret.Pos(), ok0 && v0 == 0 && okName && p.same(p.res(ret, 5), extractOr(cf.Value(), 0)), "a reproducing fail file returns valid=0, its own name and its buffer", "the fail-file return carries valid="+p.expr(p.res(ret, 0))+", name "+p.expr(name)+", buffer "+p.expr(p.res(ret, 5)))
+		// no seed is attached to a failure replayed from a file (checkTB would print it as a way to reproduce)
+		s0, okS := constInt(p.resolve(p.res(ret, 3)))
+		r.Check("doCheck#failfile-return.seed", ret.Pos(), okS && s0 == 0, "a failure replayed from a fail file carries no seed", "the fail-file return carries seed "+p.expr(p.res(ret, 3))+": checkTB would print it as -rapid.seed although it did not produce this failure")
+		// taken exactly when the file reproduced a failure: on every path to it one of checkFailFile's errors is non-nil
+		e1, e2 := p.expr(extractOr(cf.Value(), 1)), p.expr(extractOr(cf.Value(), 2))
+		sets := p.pathConds(dc, ret.Block(), func(rl rel) bool { return rl.X == e1 || rl.X == e2 })
+		okCond := len(sets) > 0
+		for _, set := range sets {
+			found := false
+			for _, lit := range set {
+				if lit == e1+" != nil" || lit == e2+" != nil" {
+					found = true
+				}
+			}
+			if !found {
+				okCond = false
+			}
+		}
+		r.Check("doCheck#failfile-return.cond", ret.Pos(), okCond, "the fail-file phase returns only when the file reproduced a failure (one of its errors is non-nil)", "doCheck can return from the fail-file phase although neither error of checkFailFile is non-nil: an ignored or passing fail file ends the check without any random test case (verdict changed by an unusable file)")
+	}
+	// … and a file that reproduced a failure does return: the loop continues only when both errors are nil
+	for _, in := range loop.Header.Instrs {
+		_ = in
+	}
+	{
+		e1, e2 := p.expr(extractOr(cf.Value(), 1)), p.expr(extractOr(cf.Value(), 2))
+		okCont := true
+		for b := range loop.Body {
+			for _, su := range b.Succs {
+				if su != loop.Header || !cf.Instr.Block().Dominates(b) {
+					continue
+				}
+				facts := p.facts(b.Instrs[len(b.Instrs)-1])
+				if iff, ok := b.Instrs[len(b.Instrs)-1].(*ssa.If); ok && b.Succs[0] != b.Succs[1] {
+					facts = append(facts, p.relOf(guard{Cond: iff.Cond, Pol: b.Succs[0] == su}))
+				}
+				if !(holds(facts, e1, "==", "nil") && holds(facts, e2, "==", "nil")) {
+					okCont = false
+				}
+			}
+		}
+		r.Check("doCheck#failfile-continue", cf.Instr.Pos(), okCont, "the replay loop moves on to the next file only when both errors are nil", "the replay loop can continue (and reach the random phase) although a fail file reproduced a failure")
 	}
 	r.Floor("fail-file returns in doCheck", n, 1)
 }
@@ -784,6 +876,12 @@ func ruleC06R6(r *Run) {
 	ct := r.MustFn("checkTB")
 	if ct == nil {
 		return
+	}
+	// Check asks doCheck to look for fail files on its own (globFailFiles = true) and hands on -rapid.failfile
+	for _, cs := range p.callsTo(ct, "doCheck") {
+		g, okG := constBool(p.resolve(cs.Arg(5)))
+		r.Check("checkTB#doCheck.glob", cs.Instr.Pos(), okG && g, "Check lets doCheck discover saved fail files (globFailFiles = true)", "checkTB calls doCheck with globFailFiles = "+p.expr(cs.Arg(5))+": saved fail files are never found without a flag")
+		r.Check("checkTB#doCheck.failfile", cs.Instr.Pos(), p.expr(cs.Arg(4)) == "G:flags.failfile", "the explicit fail file is -rapid.failfile", "checkTB passes "+p.expr(cs.Arg(4))+" as explicit fail file")
 	}
 	dcs := p.callsTo(ct, "doCheck")
 	saves := p.callsTo(ct, "saveFailFile")
@@ -855,6 +953,7 @@ func specC17() *propertySpec {
 			{"C17-R3", "random-phase-untouched: doCheck hands seed, checks, deadline, prop unmodified to findBug", ruleC17R3},
 			{"C17-R4", "glob-cannot-fail: the glob pattern contains no metacharacter besides its own * (safe alphabet)", ruleC06R2},
 			{"C17-R5", "no-crash: panics during replay are converted (recover census); an exhausted buffer raises invalidData", func(r *Run) { ruleC02R4(r); ruleC03R4(r) }},
+			{"C17-R6", "only-a-reproduced-failure-ends-the-fail-file-phase: doCheck returns from the replay loop only when one of checkFailFile's errors is non-nil, and moves on only when both are nil (shared with C06-R5)", ruleC06R5},
 		},
 	}
 }
@@ -992,7 +1091,7 @@ func ruleC17R1(r *Run) {
 			r.Check("loadFailFile#index."+p.expr(base), in.Pos(), ok, fmt.Sprintf("index %d of %s is guarded by a length fact", max64(k, 0), p.expr(base)), fmt.Sprintf("%s is indexed/sliced at %d without a dominating length check (%s): a truncated or garbage file panics instead of being ignored", p.expr(base), max64(k, 0), factsStr(facts)))
 		}
 	}
-	r.Floor("constant index expressions in loadFailFile", ni, 3)
+	r.Floor("constant index expressions in loadFailFile", ni, 2)
 	// no panic / assert
 	bad := 0
 	for f := range p.closureOf([]*ssa.Function{fn}) {
